@@ -5,6 +5,7 @@ import (
 	"fmt"
 	"sort"
 	"strings"
+	"sync"
 	"time"
 
 	"github.com/anishathalye/porcupine"
@@ -396,4 +397,294 @@ func c09Classify(N int, ops []porcupine.Operation) string {
 		}
 	}
 	return "other"
+}
+
+// ---- "wire": the same property observed where the statement observes it — stream ids seen by the
+// peer on the wire, errors returned by Send — on a live connection against a raw (refwire) server.
+
+func init() {
+	Register(&Scenario{Name: "wire", Property: "C09", Body: c09Wire})
+	pd := props["C09"]
+	prev := pd.Case
+	pd.Case = func(w *Worker, i int) {
+		prev(w, i)
+		if i%4 == 0 {
+			w.Exec(RunSpec{Scenario: "wire", Index: i})
+		}
+	}
+}
+
+func c09Wire(r *Run) {
+	const P = "C09"
+	T := r.T
+	v := r.DrawVersion()
+	N := 1 + T.Draw("N", 6)
+	K := 1 + T.Draw("senders", 5)
+	M := 1 + T.Draw("requests", 4)
+	neverAnswer := T.Draw("never", 3) // up to this many requests are answered only at the very end
+	opts := LinkOpts{Capacity: []int{1 << 20, 64, 4096}[T.DrawP("capacity", 3, 0.6)], Latency: ms([]int{0, 1, 20}[T.Draw("latency", 3)]), ChunkReads: T.Bool("chunkReads", 0.5)}
+	r.Config["version"] = v.String()
+	r.Config["N"] = fmt.Sprint(N)
+	r.Config["senders"] = fmt.Sprint(K)
+	r.Config["requests"] = fmt.Sprint(M)
+	ctx, cancel := context.WithCancel(context.Background())
+	a, b := r.Net.Pair("L", r.Net.NewClientAddr(), mustAddr("10.0.0.2:9042"), opts)
+	peer := NewRawPeer(r, b, byte(v))
+	// peer-side observation of the wire
+	unanswered := map[int16]string{}
+	var wireLog []string
+	accepted, refused := 0, 0
+	unansweredByPeer := 0
+	done := false
+	var blockedSender string
+	r.Go("main", func() {
+		cc, err := client.VerifNewClientConnection(a, ctx, nil, primitive.CompressionNone, N, 4, time.Hour, nil)
+		if err != nil {
+			return
+		}
+		r.Cleanup(func() { _ = cc.Close(); cancel(); _ = b.Close() })
+		hs := make(doneChan)
+		var hsErr error
+		r.Go("hsPeer", func() { defer close(hs); hsErr = peer.ServerHandshake(); r.Yield("hs.s") })
+		err = cc.InitiateHandshake(v, client.ManagedStreamId)
+		r.Yield("hs.c")
+		<-hs
+		r.Yield("hs.joined")
+		if err != nil || hsErr != nil {
+			r.Violate(P, "handshake", "failed:wire", "handshake with the raw server failed: %v / %v", err, hsErr)
+			return
+		}
+		// raw server: reads requests, checks ids, answers in a drawn order
+		var pending []RFrame
+		cond := NewCond()
+		stopped := false
+		readerDone := false
+		var mu sync.Mutex
+		var pwg sync.WaitGroup
+		pwg.Add(2)
+		r.Go("peer.read", func() {
+			defer pwg.Done()
+			defer func() {
+				mu.Lock()
+				readerDone = true
+				mu.Unlock()
+				cond.Bump()
+			}()
+			for {
+				f, err := peer.ReadFrame()
+				r.Yield("peer.read")
+				if err != nil {
+					return
+				}
+				q, _ := RParseQuery(f.Body)
+				id := f.H.Stream
+				wireLog = append(wireLog, fmt.Sprintf("recv %s id=%d", q, id))
+				if id < 1 || int(id) > N {
+					r.Violate(P, "wire", "id-out-of-range", "request %s arrived with stream id %d; managed ids must lie in 1..%d", q, id, N)
+				}
+				if other, dup := unanswered[id]; dup {
+					r.Violate(P, "wire", "duplicate-id-on-wire", "request %s arrived with stream id %d while request %s with the same id is still unanswered (N=%d); wire: %v", q, id, other, N, wireLog)
+				}
+				unanswered[id] = q
+				if strings.HasPrefix(q, "final") || strings.HasPrefix(q, "overflow") {
+					// the requests of the recycling checkpoint stay unanswered on purpose
+					if len(unanswered) > N {
+						r.Violate(P, "wire", "more-than-N-unanswered", "%d requests are unanswered on the wire, limit is %d", len(unanswered), N)
+					}
+					continue
+				}
+				if len(unanswered) > N {
+					r.Violate(P, "wire", "more-than-N-unanswered", "%d requests are unanswered on the wire, limit is %d", len(unanswered), N)
+				}
+				mu.Lock()
+				pending = append(pending, f)
+				mu.Unlock()
+				cond.Bump()
+			}
+		})
+		held := 0
+		heldTotal := 0
+		r.Go("peer.answer", func() {
+			defer pwg.Done()
+			for {
+				cond.Wait(func() bool {
+					mu.Lock()
+					defer mu.Unlock()
+					return len(pending) > held || (stopped && len(pending) > 0) || readerDone
+				})
+				mu.Lock()
+				if stopped || readerDone {
+					// senders are done sending: answer at once everything that is or was held back and
+					// whatever still arrives, until the connection ends
+					rest := pending
+					pending = nil
+					held = 0
+					ended := readerDone
+					mu.Unlock()
+					for _, f := range rest {
+						delete(unanswered, f.H.Stream)
+						_ = peer.SendEnvelopes([][]byte{peer.Envelope(true, 0, f.H.Stream, ROpResult, RBodyResultVoid(), false)})
+						r.Yield("peer.flush")
+					}
+					if ended {
+						return
+					}
+					if len(rest) == 0 {
+						// nothing to do yet: wait for more requests or the end of the connection
+						cond.Wait(func() bool { mu.Lock(); defer mu.Unlock(); return len(pending) > 0 || readerDone })
+					}
+					continue
+				}
+				mu.Unlock()
+				if d := T.DrawP("peer.hold", 20, 0.5); d > 0 {
+					r.Sleep(ms(d))
+				}
+				mu.Lock()
+				if len(pending) <= held {
+					mu.Unlock()
+					continue
+				}
+				k := held + T.Draw("peer.pick", len(pending)-held)
+				if heldTotal < neverAnswer && T.Bool("peer.holdback", 0.3) {
+					// keep this one unanswered for a long while (fake time), answer it from its own task
+					f := pending[k]
+					pending = append(pending[:k], pending[k+1:]...)
+					mu.Unlock()
+					heldTotal++
+					r.Probes["held_back"]++
+					d := ms(200 + T.Draw("peer.holdms", 3000))
+					pwg.Add(1)
+					r.Go("peer.late", func() {
+						defer pwg.Done()
+						r.Sleep(d)
+						delete(unanswered, f.H.Stream)
+						wireLog = append(wireLog, fmt.Sprintf("late answer id=%d", f.H.Stream))
+						_ = peer.SendEnvelopes([][]byte{peer.Envelope(true, 0, f.H.Stream, ROpResult, RBodyResultVoid(), false)})
+						r.Yield("peer.late.sent")
+					})
+					continue
+				}
+				f := pending[k]
+				pending = append(pending[:k], pending[k+1:]...)
+				mu.Unlock()
+				// the response is on the wire from now on: the id may be reused by the client
+				delete(unanswered, f.H.Stream)
+				wireLog = append(wireLog, fmt.Sprintf("answer id=%d", f.H.Stream))
+				if err := peer.SendEnvelopes([][]byte{peer.Envelope(true, 0, f.H.Stream, ROpResult, RBodyResultVoid(), false)}); err != nil {
+					return
+				}
+				r.Yield("peer.answered")
+			}
+		})
+		var wg sync.WaitGroup
+		senderState := make([]string, K)
+		for i := 0; i < K; i++ {
+			i := i
+			wg.Add(1)
+			r.Go(fmt.Sprintf("sender%d", i), func() {
+				defer wg.Done()
+				var mine []client.InFlightRequest
+				for j := 0; j < M; j++ {
+					senderState[i] = "Send"
+					req, err := cc.Send(queryFrame(v, client.ManagedStreamId, fmt.Sprintf("q%d.%d", i, j)))
+					r.Yield("sender.sent")
+					senderState[i] = ""
+					if err != nil || req == nil {
+						refused++
+						continue
+					}
+					accepted++
+					mine = append(mine, req)
+					if T.Bool("sender.wait", 0.5) {
+						senderState[i] = "Receive"
+						f, err := cc.Receive(req)
+						r.Yield("sender.recv")
+						if f == nil || err != nil {
+							unansweredByPeer++
+						}
+						senderState[i] = ""
+						mine = mine[:len(mine)-1]
+					}
+				}
+				senderState[i] = "done-sending"
+				// wait for the rest only after the peer's final flush
+				for _, req := range mine {
+					f, err := cc.Receive(req)
+					r.Yield("sender.recv.rest")
+					if f == nil || err != nil {
+						unansweredByPeer++
+					}
+				}
+				senderState[i] = "done"
+			})
+		}
+		// when every sender has finished sending, let the peer flush what it held back
+		r.Go("stopper", func() {
+			for {
+				all := true
+				for _, s := range senderState {
+					if s != "done-sending" && s != "done" {
+						all = false
+					}
+				}
+				if all {
+					break
+				}
+				r.Sleep(50 * time.Millisecond)
+			}
+			mu.Lock()
+			stopped = true
+			mu.Unlock()
+			cond.Bump()
+		})
+		wg.Wait()
+		r.Yield("senders.joined")
+		if unansweredByPeer > 0 {
+			// harness problem (a request was not answered before its read timeout): judge nothing further
+			r.Probes["wire_harness_unanswered"]++
+			done = true
+			return
+		}
+		// recycling: everything is answered now, so N new requests must be accepted, ids 1..N distinct
+		seen := map[int16]bool{}
+		for k := 0; k < N; k++ {
+			req, err := cc.Send(queryFrame(v, client.ManagedStreamId, fmt.Sprintf("final%d", k)))
+			r.Yield("final.sent")
+			if err != nil || req == nil {
+				r.Violate(P, "recycling", "wire-pool-not-recycled", "after all %d accepted requests were answered, send %d of %d new ones was refused: %v", accepted, k+1, N, err)
+				break
+			}
+			if seen[req.StreamId()] || req.StreamId() < 1 || int(req.StreamId()) > N {
+				r.Violate(P, "recycling", "wire-duplicate-after-recycle", "new request %d got stream id %d (already handed out or out of 1..%d)", k, req.StreamId(), N)
+			}
+			seen[req.StreamId()] = true
+		}
+		if req, err := cc.Send(queryFrame(v, client.ManagedStreamId, "overflow")); err == nil && req != nil {
+			r.Violate(P, "refusal", "wire-not-refused-when-full", "with %d unanswered requests (limit %d) a further send was accepted with stream id %d", N, N, req.StreamId())
+		}
+		r.Yield("final.done")
+		_ = cc.Close()
+		r.Yield("closed")
+		pwg.Wait()
+		r.Yield("peer.joined")
+		done = true
+		for i, s := range senderState {
+			if s != "done" {
+				blockedSender = fmt.Sprintf("sender%d in %s", i, s)
+			}
+		}
+	})
+	if !r.Drive() {
+		r.Violate(P, "liveness", "step-budget", "run did not quiesce")
+		return
+	}
+	if !done {
+		r.Violate(P, "no-block", "wire-blocked", "live session did not finish: a send or receive is blocked at quiescence (N=%d, accepted %d, refused %d) %s", N, accepted, refused, blockedSender)
+	}
+	r.Nontrivial = accepted >= 2
+	r.Probes["wire_sends_accepted"] += accepted
+	r.Probes["wire_sends_refused"] += refused
+	if r.Spec.Trace {
+		r.Sample = map[string]interface{}{"wire": wireLog}
+	}
 }
